@@ -66,16 +66,22 @@ def invoke(fn, names_, args, environment, pos):
         if isinstance(arg, NodeSpread):
             argvalue = arg.evaluate(environment)
             if argvalue.isMap():
-                for key, value in argvalue.value.items():
-                    values.append(value)
+                for key in argvalue.getSortedKeys():
+                    values.append(argvalue.value[key])
                     if key.isString():
                         names.append(key.value)
                     else:
                         names.append(None)
-            else:
-                for value in argvalue.value:
+            elif argvalue.isList() or argvalue.isSet():
+                for value in getCollectionValue(argvalue, None):
                     values.append(value)
                     names.append(None)
+            else:
+                raise CklRuntimeError(
+                    ValueString("ERROR"),
+                    f"Cannot spread {argvalue.type()}",
+                    pos,
+                )
         else:
             values.append(arg.evaluate(environment))
             names.append(names_[i])
@@ -1188,7 +1194,13 @@ class NodeList:
         for item in self.items:
             if isinstance(item, NodeSpread):
                 lst = item.evaluate(environment)
-                for value in lst.value:
+                if not lst.isList() and not lst.isSet():
+                    raise CklRuntimeError(
+                        ValueString("ERROR"),
+                        f"Cannot spread {lst.type()}",
+                        self.pos,
+                    )
+                for value in getCollectionValue(lst, None):
                     result.addItem(value)
             else:
                 result.addItem(item.evaluate(environment))
